@@ -467,18 +467,22 @@ func trimPathPrefix(u *url.URL, prefix string) *url.URL {
 	if !strings.HasPrefix(trimmedPath, "/") {
 		trimmedPath = "/" + trimmedPath
 	}
-	// After trimming path reconstruct uri string with Query before parsing
-	trimmedURI := trimmedPath
-	if u.RawQuery != "" || u.ForceQuery == true {
-		trimmedURI = trimmedPath + "?" + u.RawQuery
-	}
-	if u.Fragment != "" {
-		trimmedURI = trimmedURI + "#" + u.Fragment
-	}
-	trimmedURL, err := url.Parse(trimmedURI)
+	// Rebuild the URL from its parts rather than parsing the trimmed path:
+	// a trimmed path that begins with two slashes (/prefix//host/x) would be
+	// parsed as a reference to another host, and the request would carry
+	// that host into redirects.
+	path, err := url.PathUnescape(trimmedPath)
 	if err != nil {
-		log.Printf("[ERROR] Unable to parse trimmed URL %s: %v", trimmedURI, err)
+		log.Printf("[ERROR] Unable to parse trimmed URL %s: %v", trimmedPath, err)
 		return u
+	}
+	trimmedURL := &url.URL{
+		Path:        path,
+		RawPath:     trimmedPath,
+		RawQuery:    u.RawQuery,
+		ForceQuery:  u.ForceQuery,
+		Fragment:    u.Fragment,
+		RawFragment: u.RawFragment,
 	}
 	return trimmedURL
 }
